@@ -724,6 +724,34 @@ pub fn results_family() -> Vec<([u8; 64], bool)> {
                         c[15] = 7; // rh7
                     }
                     out.push((c, gold_to_move));
+                    // the same combination of conditions inside full armies: all officers of both sides on
+                    // the board, and a side that has any rabbit has all eight (so that piece counts such
+                    // as 32, 24 and 16 occur together with every verdict)
+                    let mut d = c;
+                    let gold_off = [(50usize, 2u8), (51, 2), (52, 3), (53, 3), (54, 4), (55, 4), (58, 5)];
+                    let silv_off = [(9usize, 8u8), (10, 8), (11, 9), (12, 9), (13, 10), (17, 10), (5, 11)];
+                    for (i, v) in gold_off.iter().chain(silv_off.iter()) {
+                        if d[*i] == 0 {
+                            d[*i] = *v;
+                        }
+                    }
+                    for (v, lo, hi) in [(1u8, 32usize, 48usize), (7u8, 16usize, 32usize)] {
+                        let have = d.iter().filter(|&&x| x == v).count();
+                        let has_any = have > 0;
+                        if has_any {
+                            let mut need = 8 - have;
+                            for i in lo..hi {
+                                if need == 0 {
+                                    break;
+                                }
+                                if d[i] == 0 && !TRAPS.contains(&i) {
+                                    d[i] = v;
+                                    need -= 1;
+                                }
+                            }
+                        }
+                    }
+                    out.push((d, gold_to_move));
                 }
             }
         }
